@@ -929,8 +929,20 @@ pub fn explore_mp(cfg: &ExploreCfg, worker_arg: &str, shm_dir: &std::path::Path)
         let worker_arg = worker_arg.to_string();
         let run = cfg.run.clone();
         move |core: usize| -> Child {
-            let exe = std::env::current_exe().expect("current_exe");
-            let mut proc = Command::new(exe)
+            let exe = if std::path::Path::new("/proc/self/exe").exists() {
+                std::path::PathBuf::from("/proc/self/exe")
+            } else {
+                std::env::current_exe().expect("current_exe")
+            };
+            let mut cmd = Command::new(exe);
+            unsafe {
+                use std::os::unix::process::CommandExt;
+                cmd.pre_exec(|| {
+                    libc::prctl(libc::PR_SET_PDEATHSIG, libc::SIGKILL);
+                    Ok(())
+                });
+            }
+            let mut proc = cmd
                 .env("VERIF_VRT_WORKER", &worker_arg)
                 .env("VERIF_VRT_SHM", &shm)
                 .env("VERIF_VRT_CORE", core.to_string())
